@@ -557,6 +557,35 @@ def gen_source_freshness(rng):
                                                                          "style": "source-freshness"}}
 
 
+def gen_interleave(rng):
+    """another connection's complete call falls between two SQL statements of one call (kind "interleave")"""
+    sids = rng.sample(SIDS, 2)
+    keys = rng.sample(KEYS, 2)
+    vals = [gen_strict(rng) for _ in range(3)]
+    views = {"s0": {"kind": "store", "strict": True}, "s1": {"kind": "store", "strict": True}}
+
+    def write(view):
+        r = rng.random()
+        sid, key = rng.choice(sids), rng.choice(keys)
+        if r < 0.6:
+            return {"view": view, "op": "set_value", "sid": cps(sid), "key": cps(key), "value": rng.choice(vals)}
+        if r < 0.8:
+            return {"view": view, "op": "delete_value", "sid": cps(sid), "key": cps(key)}
+        return {"view": view, "op": "delete_data", "sid": cps(sid)}
+    init = [write("s0") for _ in range(rng.choice([0, 0, 1, 2]))]
+    a = write("s0")
+    b = write("s1")
+    if rng.random() < 0.6:
+        # both address the same cell (the interesting case: a key that does not exist yet, or one that does)
+        for f in ("sid", "key"):
+            if f in a and f in b:
+                b[f] = a[f]
+    if rng.random() < 0.25:
+        a = {"view": "s0", "op": rng.choice(["get_data", "list_systems"]), "sid": cps(rng.choice(sids))}
+    return {"kind": "interleave", "views": views, "init": init, "a": a, "b": b, "k": rng.choice([1, 2, 2, 2, 3]),
+            "_meta": {"style": "interleave"}}
+
+
 def gen_fn(rng, i):
     m = i % 3
     if m == 0:
